@@ -64,6 +64,14 @@ CLAIMED = {
          "(both protocols), bounds, TTGlyphPen/TTGlyphPointPen with dropImpliedOnCurves, T2CharStringPen, super-bezier and quadratic "
          "decomposition) is compared through an independent canonical geometry (testing).",
          "Rocq proof over Q of transform/area/reversal algebra + exact correspondence of reversedContour + canonical-geometry sweeps"),
+ "C17": ("Theorems: the glyph-name -> glyph-ID map is never stale after ANY sequence of setGlyphOrder / lookups (invariant over the "
+         "operation list; the map sends a name to its last index in the current order), |scale(v) - f*v| <= 1/2, scale by 1 is the identity, "
+         "a sum of n scaled values is within n/2 of the scaled sum, and every design-unit field of the OpenType text (a hand-written list) "
+         "is registered with the scaler while non-length fields are not — re-proved against the attribute list REGENERATED from scaleUpem.py on "
+         "every run. Tied to the code by operation-sequence correspondence (incl. in-place permutation of the font's own list) and exact "
+         "scale correspondence; reorderGlyphs / scale_upem on corpus and generated fonts are compared by glyph name through HarfBuzz (testing). "
+         "F10 (MATH fields not scaled) repaired by a fix: commit.",
+         "Rocq proof of the cache invariant and rounding bounds + source-regenerated field list + correspondence + HarfBuzz sweeps"),
 }
 
 def main():
